@@ -3,12 +3,12 @@
 (* (wrapOutput, sendInput).  One action per critical section of the Go code, named after it: *)
 (*                                                                                            *)
 (*   output pump (wrapOutput)       Detect(u,st,v)   header chunk while no session exists    *)
-(*                                  Out(k)           any other chunk: handleServerOutput's   *)
+(*                                  Out(k), Rearm    any other chunk: handleServerOutput's   *)
 (*                                                   four branches / plain pass-through,     *)
 (*                                                   filter drops the session on "declined"  *)
 (*   input pump (sendInput)         InBegin(k), InCheck    (Ctrl-C -> stopTransferringFiles)  *)
 (*   handleZmodemEvent goroutine E  EInit, Sleep100, Launch, LaunchStore, LaunchFail,          *)
-(*     = handleZmodemStream reader  ReadFwd, ReadIgnore, ReadEOF, ReadErr, Break              *)
+(*     = handleZmodemStream reader  ReadFwd, FwdWrite, ReadIgnore, ReadEOF, ReadErr, Break    *)
 (*   checkClientExited goroutine W  WaitReturns, WStore, WMsg, WArm, WCancel                  *)
 (*   handleZmodemError              HzeStart (CAS won, inside the caller's step), HzeSrv      *)
 (*                                  (cancel to the server), HzeCmd (cancel to the helper +    *)
@@ -39,7 +39,7 @@ SrvKinds == {"data", "fin", "can", "cno"}   \* chunk kinds after a header ("cno"
 HoutKinds == {"data", "fin"}
 Codes == {"zero", "nonzero"}
 
-VARIABLES up, start, sess, cursor, errArms, crashed,           \* session parameters / filter
+VARIABLES up, start, sess, cursor, errArms, crashed, pcS,      \* session parameters / filter, output pump
           stopped, cleaned, cliFin, srvFin, errOcc,            \* the five flags
           hlp, code, hlpQ, cmd,                                \* helper process, exit status, its unread output, z.cmd set
           pcE, pcW, hze, inp,                                  \* goroutines
@@ -47,7 +47,7 @@ VARIABLES up, start, sess, cursor, errArms, crashed,           \* session parame
           srvCan, hlpCan, hlpWaiting, errNoCmd, cleanHdr,          \* history
           nHdr, nSrv, nHout, nCtrlC, nText                     \* budgets used
 
-sessv  == <<up, start, sess, cursor, errArms, crashed>>
+sessv  == <<up, start, sess, cursor, errArms, crashed, pcS>>
 flags  == <<stopped, cleaned, cliFin, srvFin, errOcc>>
 helper == <<hlp, code, hlpQ, cmd>>
 pcs    == <<pcE, pcW, hze, inp>>
@@ -63,7 +63,7 @@ Returned     == stopped /\ cleaned          \* ~isTransferringFiles()
 Transferring == ~stopped \/ ~cleaned        \* isTransferringFiles()
 
 InitVals ==
-    /\ up = FALSE /\ start = "ok" /\ sess = "none" /\ cursor = "shown" /\ crashed = FALSE
+    /\ up = FALSE /\ start = "ok" /\ sess = "none" /\ cursor = "shown" /\ crashed = FALSE /\ pcS = "idle"
     /\ stopped = FALSE /\ cleaned = FALSE /\ cliFin = FALSE /\ srvFin = FALSE /\ errOcc = FALSE
     /\ hlp = "none" /\ code = "zero" /\ hlpQ = <<>> /\ cmd = FALSE
     /\ pcE = "idle" /\ pcW = "off" /\ hze = HzeIdle /\ inp = NoInp
@@ -75,7 +75,7 @@ Init == InitVals /\ errArms \in ErrArms
 
 (* used by the trace spec to start the next recorded run *)
 Reset ==
-    /\ up' = FALSE /\ start' = "ok" /\ sess' = "none" /\ cursor' = "shown" /\ crashed' = FALSE
+    /\ up' = FALSE /\ start' = "ok" /\ sess' = "none" /\ cursor' = "shown" /\ crashed' = FALSE /\ pcS' = "idle"
     /\ stopped' = FALSE /\ cleaned' = FALSE /\ cliFin' = FALSE /\ srvFin' = FALSE /\ errOcc' = FALSE
     /\ hlp' = "none" /\ code' = "zero" /\ hlpQ' = <<>> /\ cmd' = FALSE
     /\ pcE' = "idle" /\ pcW' = "off" /\ hze' = HzeIdle /\ inp' = NoInp
@@ -134,13 +134,13 @@ HzeMsg ==
 (* always reaches the terminal.                                                               *)
 Detect(u, st, v) ==
     /\ ~crashed
-    /\ sess = "none" /\ nHdr < MaxHdr
+    /\ sess = "none" /\ nHdr < MaxHdr /\ pcS = "idle"
     /\ nHdr' = nHdr + 1
     /\ IF v = "none"
        THEN /\ sess' = "held" /\ up' = u /\ start' = st /\ cursor' = "hidden"
             /\ pcE' = IF InitBeforePublish THEN "sleep" ELSE "init"
             /\ cleanHdr' = TRUE
-            /\ UNCHANGED <<errArms, crashed>>
+            /\ UNCHANGED <<errArms, crashed, pcS>>
        ELSE UNCHANGED <<sessv, pcE, cleanHdr>>
     /\ UNCHANGED <<flags, helper, pcW, hze, inp, timers, srvCan, hlpCan, hlpWaiting,
                    errNoCmd, nSrv, nHout, nCtrlC, nText>>
@@ -160,7 +160,7 @@ Declined == sess' = "dropped" /\ cursor' = "shown"
 
 Out(k) ==
     /\ ~crashed
-    /\ nSrv < MaxSrv
+    /\ nSrv < MaxSrv /\ pcS = "idle"
     /\ nSrv' = nSrv + 1
     /\ UNCHANGED <<crW, up, start, errArms, crashed, cliFin, errOcc, helper, pcs, clT, kill,
                    srvCan, hlpCan, hlpWaiting, errNoCmd, cleanHdr,
@@ -168,29 +168,37 @@ Out(k) ==
     /\ IF sess # "held"
        THEN \* no session: plain pass-through
             /\ OutDisp(k) = "pass"
-            /\ UNCHANGED <<sess, cursor, stopped, cleaned, srvFin, cuT, svT>>
+            /\ UNCHANGED <<sess, cursor, stopped, cleaned, srvFin, cuT, svT, pcS>>
        ELSE IF stopped
        THEN IF cleaned
             THEN /\ Declined /\ OutDisp(k) = "pass"
-                 /\ UNCHANGED <<stopped, cleaned, srvFin, cuT, svT>>
-            ELSE \* z.resetCleanupTimer(); return true
-                 /\ cuT' = TRUE /\ OutDisp(k) = "held"
-                 /\ UNCHANGED <<sess, cursor, stopped, cleaned, srvFin, svT>>
+                 /\ UNCHANGED <<stopped, cleaned, srvFin, cuT, svT, pcS>>
+            ELSE \* (cleaned was loaded as false) ... z.resetCleanupTimer(); return true
+                 \* the re-arming is a step of its own (Rearm): the old timer may fire in between
+                 /\ pcS' = "rearm" /\ OutDisp(k) = "held"
+                 /\ UNCHANGED <<sess, cursor, stopped, cleaned, srvFin, cuT, svT>>
        ELSE IF cmd
        THEN \* forward server output to the client (z.cmd is set)
             /\ OutDisp(k) = "held"
             /\ svT' = (svT \/ ~up)
             /\ srvFin' = (srvFin \/ k = "fin")
-            /\ UNCHANGED <<sess, cursor, stopped, cleaned, cuT>>
+            /\ UNCHANGED <<sess, cursor, stopped, cleaned, cuT, pcS>>
        ELSE IF k \in {"can", "cno"}
        THEN \* server canceled before the client startup
             /\ OutDisp(k) = "pass"
             /\ cleaned' = TRUE /\ stopped' = TRUE
             /\ Declined
-            /\ UNCHANGED <<srvFin, cuT, svT>>
+            /\ UNCHANGED <<srvFin, cuT, svT, pcS>>
        ELSE \* skip it and wait for the client to start
             /\ OutDisp(k) = "held"
-            /\ UNCHANGED <<sess, cursor, stopped, cleaned, srvFin, cuT, svT>>
+            /\ UNCHANGED <<sess, cursor, stopped, cleaned, srvFin, cuT, svT, pcS>>
+
+(* the tail of handleServerOutput's "stopped, not cleaned" branch: resetCleanupTimer()        *)
+Rearm ==
+    /\ ~crashed
+    /\ pcS = "rearm" /\ pcS' = "idle"
+    /\ cuT' = TRUE
+    /\ UNCHANGED <<up, start, sess, cursor, errArms, crashed, flags, helper, pcs, clT, svT, kill, crW, hist, budget>>
 
 -----------------------------------------------------------------------------
 (* Input pump: one turn of wrapInput's loop = sendInput(buf).                                 *)
@@ -200,7 +208,7 @@ InBegin(k) ==
     /\ inp.pc = "none"
     /\ IF k = "ctrlc" THEN nCtrlC < MaxCtrlC /\ nCtrlC' = nCtrlC + 1 /\ UNCHANGED nText
                       ELSE nText < MaxText /\ nText' = nText + 1 /\ UNCHANGED nCtrlC
-    /\ UNCHANGED <<up, start, sess, cursor, errArms, cleaned, cliFin, srvFin, helper, pcE, pcW, timers,
+    /\ UNCHANGED <<up, start, sess, cursor, errArms, pcS, cleaned, cliFin, srvFin, helper, pcE, pcW, timers,
                    hlpCan, errNoCmd, cleanHdr, nHdr, nSrv, nHout>>
     /\ IF sess # "held"
        THEN \* filter.zmodem is nil: straight to the server (inp.pc "pass": observable result)
@@ -270,7 +278,8 @@ LaunchFail ==
     /\ UNCHANGED <<sessv, cleaned, cliFin, srvFin, helper, pcW, inp, timers, hlpCan,
                    errNoCmd, cleanHdr, budget>>
 
-(* one turn of the read loop with n > 0: forwarded to the server                              *)
+(* one turn of the read loop with n > 0 that is going to be forwarded: resetClientTimer, the  *)
+(* errorOccurred / finished test, clientFinished ...                                          *)
 ReadFwd ==
     /\ ~crashed
     /\ pcE = "read" /\ hlpQ # <<>>
@@ -278,7 +287,14 @@ ReadFwd ==
     /\ hlpQ' = Tail(hlpQ)
     /\ clT' = up
     /\ cliFin' = (cliFin \/ Head(hlpQ) = "fin")
-    /\ UNCHANGED <<crW, sessv, stopped, cleaned, srvFin, errOcc, hlp, code, cmd, pcs, cuT, svT, kill, hist, budget>>
+    /\ pcE' = "fwd"
+    /\ UNCHANGED <<crW, sessv, stopped, cleaned, srvFin, errOcc, hlp, code, cmd, pcW, hze, inp, cuT, svT, kill, hist, budget>>
+
+(* ... writeAll(z.serverIn, buf)                                                              *)
+FwdWrite ==
+    /\ ~crashed
+    /\ pcE = "fwd" /\ pcE' = "read"
+    /\ UNCHANGED <<sessv, flags, helper, pcW, hze, inp, timers, hist, budget>>
 
 (* ... "ignore zmodem output": break                                                          *)
 ReadIgnore ==
@@ -401,9 +417,9 @@ HelperExit(c) ==
 
 -----------------------------------------------------------------------------
 Short ==    \* internal steps that are due within the code's short delays (<= 500 ms)
-    \/ EInit \/ Sleep100 \/ Launch \/ LaunchStore \/ LaunchFail \/ ReadFwd \/ ReadIgnore \/ ReadEOF \/ ReadErr \/ Break
+    \/ EInit \/ Sleep100 \/ Launch \/ LaunchStore \/ LaunchFail \/ ReadFwd \/ FwdWrite \/ ReadIgnore \/ ReadEOF \/ ReadErr \/ Break
     \/ WaitReturns \/ WStore \/ WMsg \/ WArm \/ WCancel
-    \/ HzeSrv \/ HzeCmd \/ HzeMsg \/ InCheck \/ Kill \/ CleanupFires \/ CleanupWrite
+    \/ HzeSrv \/ HzeCmd \/ HzeMsg \/ InCheck \/ Kill \/ CleanupFires \/ CleanupWrite \/ Rearm
 
 Long == ClientTimerFires \/ ServerTimerFires     \* the 20 s timers
 
@@ -426,7 +442,7 @@ Quiescent ==
     /\ pcW \in {"off", "wait", "done"}
     /\ (pcW = "wait" => hlp = "run")
     /\ hze.pc = "idle" /\ inp.pc = "none"
-    /\ ~kill /\ ~cuT /\ ~crW
+    /\ ~kill /\ ~cuT /\ ~crW /\ pcS = "idle"
 
 (* ... and the 20 s timers have expired as well                                               *)
 LongQuiescent == Quiescent /\ ~clT /\ ~svT
@@ -436,9 +452,9 @@ LongQuiescent == Quiescent /\ ~clT /\ ~svT
 (* user, helper) is free -- in particular the helper may never exit and never output.        *)
 Fairness ==
     /\ WF_vars(EInit) /\ WF_vars(Sleep100) /\ WF_vars(Launch) /\ WF_vars(LaunchStore) /\ WF_vars(LaunchFail)
-    /\ WF_vars(ReadFwd) /\ WF_vars(ReadIgnore) /\ WF_vars(ReadEOF \/ ReadErr) /\ WF_vars(Break)
+    /\ WF_vars(ReadFwd) /\ WF_vars(FwdWrite) /\ WF_vars(ReadIgnore) /\ WF_vars(ReadEOF \/ ReadErr) /\ WF_vars(Break)
     /\ WF_vars(WaitReturns) /\ WF_vars(WStore) /\ WF_vars(WMsg) /\ WF_vars(WArm) /\ WF_vars(WCancel)
-    /\ WF_vars(HzeSrv) /\ WF_vars(HzeCmd) /\ WF_vars(HzeMsg) /\ WF_vars(InCheck) /\ WF_vars(Kill) /\ WF_vars(CleanupFires) /\ WF_vars(CleanupWrite)
+    /\ WF_vars(HzeSrv) /\ WF_vars(HzeCmd) /\ WF_vars(HzeMsg) /\ WF_vars(InCheck) /\ WF_vars(Kill) /\ WF_vars(CleanupFires) /\ WF_vars(CleanupWrite) /\ WF_vars(Rearm)
     /\ WF_vars(ClientTimerFires) /\ WF_vars(ServerTimerFires)
 
 (* Environment assumption used only while ErrArms = {FALSE} (finding F1): after an error     *)
@@ -457,9 +473,9 @@ LiveSpecEcho == Init /\ [][NextEcho]_vars /\ Fairness /\ WF_vars(EchoStep) \* un
 TypeOK ==
     /\ sess \in {"none", "held", "dropped"} /\ cursor \in {"shown", "hidden"}
     /\ hlp \in {"none", "run", "dead"} /\ code \in Codes
-    /\ pcE \in {"idle", "init", "sleep", "launch", "store", "read", "brk", "hze", "done"}
+    /\ pcE \in {"idle", "init", "sleep", "launch", "store", "read", "fwd", "brk", "hze", "done"}
     /\ pcW \in {"off", "wait", "store", "msg", "arm", "cancel", "done"}
-    /\ hze.pc \in {"idle", "srv", "cmd", "msg"}
+    /\ hze.pc \in {"idle", "srv", "cmd", "msg"} /\ pcS \in {"idle", "rearm"}
     /\ cmd = (pcW # "off") /\ (cmd => hlp # "none")
 
 (* Output that carries a cancel sequence or a 'cannot open' message alongside a header does  *)
